@@ -70,6 +70,9 @@ pub struct Fired {
     /// reads of standard input answered EAGAIN for a while (a stalled writer on a non-blocking
     /// pipe): the tool may give up with an I/O error or wait and read everything
     pub stdin_eagain: bool,
+    /// files on which one read failed transiently (ETIMEDOUT/EAGAIN/EIO once, fine afterwards):
+    /// the tool may report them as unreadable or try again and read everything
+    pub transient_read: BTreeSet<String>,
     /// getcwd() failed (the current directory was deleted)
     pub cwd_failed: bool,
     /// a catchable signal was delivered mid-run (counts as `crashed` for the expectations)
@@ -124,7 +127,7 @@ pub fn fired(trace: &[TraceEvent]) -> Fired {
         }
         *counts.entry(kind.clone()).or_default() += 1;
         match kind.as_str() {
-            "openr" => {
+            "openr" | "stat" => {
                 f.read_failed.insert(ev.target.clone());
             }
             "read" if ev.ret < 0 => {
@@ -159,6 +162,9 @@ pub fn fired(trace: &[TraceEvent]) -> Fired {
             "getcwd" => f.cwd_failed = true,
             "thread" => f.thread_refused = true,
             "eagain_read" if ev.ret < 0 && ev.target == "@0" => f.stdin_eagain = true,
+            "tread" if ev.ret < 0 => {
+                f.transient_read.insert(ev.target.clone());
+            }
             "flock" if ev.ret < 0 => f.lock_refused = true,
             _ => {}
         }
